@@ -20,6 +20,7 @@ type Clause struct {
 	Props []string
 	Loc   string
 	Tier  string
+	Only  bool // [Cxx ONLY]: used as a hypothesis only in the checks of the listed properties (keeps other checks' queries small)
 }
 
 type LoopSpec struct {
@@ -50,6 +51,8 @@ type Contract struct {
 	Panics    bool // function may panic by design (documented); excluded
 	Views     []string
 	Ghosts    []GhostRes // ghost results: named values of locals at return, existentially quantified for callers
+	BindEnsures map[int]bool // callback contracts: indices of Ensures that are also obligations of a method bound to the slot
+	BindAssume []Clause  // callback contracts: extra hypotheses under which a bound method is checked to meet the postconditions
 	used      bool
 }
 
@@ -77,7 +80,7 @@ type Lemma struct {
 	Uses  []ast.Expr // instances `lemmaName(e1, e2, ...)` of other lemmas, assumed (those lemmas are proved in the same run)
 }
 
-var propRe = regexp.MustCompile(`^\[((?:C\d+[ ,]*)+)\]\s*`)
+var propRe = regexp.MustCompile(`^\[((?:(?:C\d+|ONLY)[ ,]*)+)\]\s*`)
 
 // rewriteSpec turns the contract surface syntax (==>, <==>, forall) into parseable Go.
 func rewriteSpec(s string) string {
@@ -220,6 +223,10 @@ func mkClause(text, loc string) (Clause, error) {
 	text = strings.TrimSpace(text)
 	if m := propRe.FindStringSubmatch(text); m != nil {
 		for _, p := range strings.FieldsFunc(m[1], func(r rune) bool { return r == ' ' || r == ',' }) {
+			if p == "ONLY" {
+				cl.Only = true
+				continue
+			}
 			cl.Props = append(cl.Props, p)
 		}
 		text = text[len(m[0]):]
@@ -239,7 +246,7 @@ func mkClause(text, loc string) (Clause, error) {
 
 var clauseKw = map[string]bool{"props": true, "requires": true, "ensures": true, "modifies": true, "pure": true, "loop": true, "decreases": true,
 	"names": true, "assumed": true, "trusted": true, "noinline": true, "entry": true, "func": true, "dep": true, "spec": true, "lemma": true,
-	"ghost": true, "uses": true, "streamalias": true, "interface": true, "purepkg": true, "panics": true, "view": true, "pool": true}
+	"ghost": true, "uses": true, "bindassume": true, "bindensures": true, "streamalias": true, "interface": true, "purepkg": true, "panics": true, "view": true, "pool": true}
 
 // parseContractLines parses logical contract lines. pkgRel is the package the file belongs to ("" for spec files).
 func (w *World) parseContractLines(lines []string, locs []string, pkgRel string, assumed bool) error {
@@ -413,13 +420,21 @@ func (w *World) parseContractLines(lines []string, locs []string, pkgRel string,
 			switch kw {
 			case "props":
 				cur.Props = append(cur.Props, strings.FieldsFunc(rest, func(r rune) bool { return r == ' ' || r == ',' })...)
-			case "requires", "ensures":
+			case "requires", "ensures", "bindassume", "bindensures":
 				cl, err := mkClause(rest, loc)
 				if err != nil {
 					return err
 				}
 				if kw == "requires" {
 					cur.Requires = append(cur.Requires, cl)
+				} else if kw == "bindassume" {
+					cur.BindAssume = append(cur.BindAssume, cl)
+				} else if kw == "bindensures" {
+					if cur.BindEnsures == nil {
+						cur.BindEnsures = map[int]bool{}
+					}
+					cur.BindEnsures[len(cur.Ensures)] = true
+					cur.Ensures = append(cur.Ensures, cl)
 				} else {
 					cur.Ensures = append(cur.Ensures, cl)
 				}
